@@ -20,12 +20,12 @@ type poolState struct {
 // Rates are in 1/65536 units. With Tape set, decisions are read from it instead
 // (replay); an exhausted tape means fault-free.
 type PoolConfig struct {
-	Seed     uint64 `json:"seed"`
-	DropRate uint32 `json:"drop"` // Put discards the object
-	MissRate uint32 `json:"miss"` // Get calls New although objects are stored
-	AnyRate  uint32 `json:"any"`  // Get takes an arbitrary stored object instead of the newest
+	Seed     uint64  `json:"seed"`
+	DropRate uint32  `json:"drop"` // Put discards the object
+	MissRate uint32  `json:"miss"` // Get calls New although objects are stored
+	AnyRate  uint32  `json:"any"`  // Get takes an arbitrary stored object instead of the newest
 	Tape     []int32 `json:"tape,omitempty"`
-	Replay   bool   `json:"replay,omitempty"`
+	Replay   bool    `json:"replay,omitempty"`
 }
 
 // PoolStats counts what actually happened.
@@ -71,6 +71,21 @@ func PoolPhase(cfg PoolConfig) {
 	poolTape = poolTape[:0]
 	poolPos = 0
 	poolStats = PoolStats{}
+}
+
+// PoolFlush discards the content of every pool touched in this epoch (what a
+// garbage collection does to sync.Pool).
+//
+//go:norace
+func PoolFlush() {
+	for _, p := range pools {
+		if p.st != nil {
+			for i := range p.st.items {
+				p.st.items[i] = nil
+			}
+			p.st.items = p.st.items[:0]
+		}
+	}
 }
 
 // PoolSetFaults changes the fault rates inside an epoch (e.g. fault-free
